@@ -40,6 +40,7 @@ func init() {
 			{ID: "C13.R19", Text: "a slow teardown step is not a crash: the HTTP server is shut down with the unbounded Shutdown(), or the error of a deadline variant does not reach panic", Run: boundedTeardownIsNotFatal},
 			{ID: "C13.R20", Text: "the session flags: Close records its closeWithCancel argument (before closing streams) in the flag the end listener reads; stops the mitigation ⇔ ¬Disabled and the schedule ⇔ checkpoint≠nil; hands the finish token ⇔ ¬finishedWithEndEvent; open←true ends Open and open←false is stored by Close; Stream.Save is Checkpoint.Save; Open starts the schedule, whose loop saves under Type==auto", Run: sessionFlags},
 			{ID: "C13.R21", Text: "fan-out/wait pairs are complete: in the parallel stream close and the open-all step every worker signals Done exactly once on every non-panicking path, Add is sized by the iterated collection and Wait precedes every return", Run: workersSignal("stream.stream).closeAllStreams", "stream.stream).openAllStreams")},
+			{ID: "C13.R22", Text: "rollback-mitigation polling is stopped: the stop handshake with the observe loop runs exactly when a loop exists (same rule as C07.R17)", Run: mitigationStopHandshake},
 			{ID: "C13.R9", Text: "background waits are cancellable: the health checker blocks only in selects with a ctx.Done() case (same rule as C19.R2)", Run: c19r2},
 			{ID: "C13.R10", Text: "a cancel signal closes with closeWithCancel=true: the flag is raised in the branch of the wait that received the signal, before the close path runs, and is what Stream.Close receives", Run: c13r10},
 			{ID: "C13.R8", Text: "closeAllStreams closes every assigned vBucket: the serial branch iterates vbIDRange.Start..End inclusive, the parallel branch ranges over every tracked position", Run: closeAllRange},
